@@ -60,7 +60,7 @@ class MMap(MNode):
 
     def update(self, x, who, md):
         f = self.spec.get('_fn') or F.MAPS[self.spec['f']]
-        self.emit(f(x, *self.spec.get('args', ())), md)
+        self.emit(f(x, *self.spec.get('args', ()), **self.spec.get('kwargs', {})), md)
 
 
 class MStarmap(MNode):
@@ -76,7 +76,9 @@ class MFilter(MNode):
 
     def update(self, x, who, md):
         p = self.spec.get('_fn') or F.PREDS[self.spec['p']]
-        ok = bool(x) if p is None else p(x)
+        ok = bool(x) if p is None else p(x, *self.spec.get('args', ()), **self.spec.get('kwargs', {}))
+        if self.spec.get('negate'):          # Stream.remove(predicate)
+            ok = not ok
         if ok:
             self.emit(x, md)
 
@@ -138,7 +140,7 @@ def _key(spec, x, default_ident=False):
     k = spec.get('key', NO)
     if k is NO or k is None:
         return x if default_ident else None
-    if isinstance(k, dict):            # {'index': i}
+    if isinstance(k, dict):            # {'index': i}: a non-callable key means x[key]
         return x[k['index']]
     return F.KEYS[k](x)
 
